@@ -112,7 +112,7 @@ pub fn facts<'a>(cx: &'a Cx) -> BTreeMap<u32, AF<'a>> {
                         Cb::Finished => {
                             if let Some(i) = af.incs.last_mut() {
                                 if i.f.is_none() && i.t.is_none() {
-                                    i.f = Some((cb.i, cb.o.map(|o| o.0)));
+                                    i.f = Some((cb.i, cb.o.filter(|o| o.2).map(|o| o.0)));
                                 } else {
                                     i.extra_cb.push((Cb::Finished, cb.i));
                                 }
@@ -121,7 +121,8 @@ pub fn facts<'a>(cx: &'a Cx) -> BTreeMap<u32, AF<'a>> {
                         Cb::Stopped => {
                             if let Some(i) = af.incs.last_mut() {
                                 if i.t.is_none() {
-                                    i.t = Some((cb.i, cb.o.map(|o| o.0)));
+                                    // completed only if the callback returned (ok); a dropped one is not
+                                    i.t = Some((cb.i, cb.o.filter(|o| o.2).map(|o| o.0)));
                                 } else {
                                     i.extra_cb.push((Cb::Stopped, cb.i));
                                 }
